@@ -8,6 +8,24 @@ import os
 ROOT = os.path.dirname(os.path.dirname(os.path.abspath(__file__)))
 
 CHECKS = {
+    "C19": dict(
+        category="fault_enumeration",
+        technique="fault-point enumeration: each generated load graph is executed once to count its fault points and "
+                  "then once per point with exactly that point raising; the open/closed state of every Resource and URL "
+                  "stream and the outcome of a following load are compared with the failure-free run",
+        text="All ordered include / %import / schema-extends / <import package> / <import src> trees of 3..4 (quick) / 5 "
+             "(thorough) real resources, plus every acyclic extra reference edge (diamonds, double include, double "
+             "extends), loadURL and loadFile entry points, schema-then-config sessions; x every single fault point "
+             "(opening resource j, the URL-stream read, every parser readline/read i of resource j, the k-th datatype "
+             "conversion, the i-th section datatype call) x 2 exception types.  After return or raise: every Resource "
+             "handed out by createResource has closed == True and file is None and its file is closed; every urlopen "
+             "stream is closed and was already closed when createResource was called; a following failure-free load "
+             "gives the failure-free outcome.",
+        note="Trusted: class-level wrapper of BaseLoader.createResource, wrappers of urllib.request.urlopen and "
+             "ZConfig.loader.openPackageResource installed by the harness (vz/engine/faults.py), counting datatypes in "
+             "vz/harness/vzdt.py.  file: and package: resources only; one fault per run; re-use of a ConfigLoader "
+             "instance whose load failed is observed, not judged.",
+        design="DESIGN.md section 3, C19; tools/notes/C19.md", engine="E4 faults"),
     "C12": dict(
         category="model_checking",
         technique="explicit-state breadth-first search over texts ('%import' / section-use sequences, state = reference "
@@ -315,7 +333,7 @@ def main():
              "kind_free_text": "explicit-state BFS over the real transition function, states rebuilt by replaying event histories, canonicalised and deduplicated"},
             {"name": "E3 deviate", "path": "vz/engine/deviate.py", "serves_properties": ["C06", "C07", "C08", "C10", "C14", "C15"],
              "kind_free_text": "deviation-bounded exploration: all 0/1/2-subsets of deviation sites of a seed"},
-            {"name": "E4 faults", "path": "vz/props/c19.py", "serves_properties": ["C19"],
+            {"name": "E4 faults", "path": "vz/engine/faults.py", "serves_properties": ["C19"],
              "kind_free_text": "fault-point enumeration: count the points of a scenario, re-run once per point"},
             {"name": "E5 dfa", "path": "vz/engine/dfa.py", "serves_properties": ["C09"],
              "kind_free_text": "product-automaton reachability for regex language equivalence"},
